@@ -612,6 +612,7 @@ def correspond(ctx):
                          {"case": case, "line": mline, "model": [mp_, mr, mf], "impl": [ip, ir, ifin]})
     ctx.extra["window_lines_inconsistent"] = window_hits
     flow_phase_test(ctx, lines, src)
+    pool_population_interrupt_test(ctx)
     exit_code_test(ctx)
     double_signal_test(ctx)
     populate_interrupt_test(ctx)
@@ -733,6 +734,128 @@ def flow_phase_test(ctx, lines, src):
         shutil.rmtree(base, ignore_errors=True)
         if "template" in locals():
             shutil.rmtree(template, ignore_errors=True)
+
+
+def pool_population_interrupt_test(ctx):
+    """a signal while a PROPOSAL POOL is being populated — at the moment the pool's likelihoods are evaluated — in the uninformed
+    (prior-rejection pool) and in the flow phase: the handler's checkpoint, resumed, must continue to a consistent run in which
+    every recorded and every live point carries the model's own log-likelihood (seeded change C13-hC / C09-hB: the rejection
+    proposal announced `populated = True` before evaluating the likelihoods, so the resumed run handed out a pool of NaNs)."""
+    import logging
+    from nessai.flowsampler import FlowSampler
+    from nessai.proposal.flowproposal import FlowProposal
+    from nessai.proposal.rejection import RejectionProposal
+    logging.disable(logging.CRITICAL)
+    nlive = 50
+    kw = dict(nlive=nlive, plot=False, seed=5, maximum_uninformed=60, checkpoint_on_iteration=True, checkpoint_interval=10 ** 9,
+              signal_handling=False, flow_config=dict(n_blocks=2, n_neurons=4), training_config=dict(max_epochs=5),
+              poolsize=100, log_on_iteration=False)
+    try:
+        for phase, cls in (("uninformed", RejectionProposal), ("flow", FlowProposal)):
+            d = tempfile.mkdtemp(prefix="c13p_")
+            state = {"in": False, "armed": True, "fired": False, "fs": None}
+            orig_pop = cls.__dict__["populate"]
+
+            state["calls"] = 0
+            # the first prior-rejection pool is drawn at iteration 0, where a resumed run starts over anyway: take the second
+            want_call = 2 if phase == "uninformed" else 1
+
+            def populate(self_, *a, _o=orig_pop, _cls=cls, **k):
+                mine = type(self_) is _cls
+                if mine:
+                    state["calls"] += 1
+                    mine = state["calls"] >= want_call
+                if mine:
+                    state["in"] = True
+                try:
+                    return _o(self_, *a, **k)
+                finally:
+                    if mine:
+                        state["in"] = False
+
+            model = _gauss_model()
+            orig_ll = model.log_likelihood
+
+            def ll(x):
+                if state["in"] and state["armed"]:
+                    state["armed"] = False
+                    state["fired"] = True
+                    ns = state["fs"].ns
+                    ns.close_pool(code=signal.SIGTERM)       # what FlowSampler.safe_exit does: close pool, checkpoint, exit
+                    ns.checkpoint()
+                    raise Interrupted()
+                return orig_ll(x)
+
+            model.log_likelihood = ll
+            case = {"phase": phase, "interrupt": f"likelihood evaluation inside call {want_call} of {cls.__name__}.populate", "nlive": nlive}
+            try:
+                cls.populate = populate
+                fs = FlowSampler(model, output=d, resume=False, max_iteration=200, **kw)
+                state["fs"] = fs
+                try:
+                    fs.run(plot=False, save=False)
+                except Interrupted:
+                    pass
+            finally:
+                cls.populate = orig_pop
+            if not state["fired"]:
+                ctx.case(("pool-interrupt", phase), False, kind="pool-interrupt:not-reached")
+                shutil.rmtree(d, ignore_errors=True)
+                continue
+            try:
+                fresh = _gauss_model()
+                f3 = FlowSampler(fresh, output=d, resume=True, **kw)
+                f3.ns.max_iteration = f3.ns.iteration + 40
+                f3.ns.initialise()
+                handed = {"n": 0, "bad": 0}
+                from unittest import mock
+                patches = []
+                for pc in {type(p) for p in (f3.ns._uninformed_proposal, f3.ns._flow_proposal, f3.ns.proposal) if p is not None}:
+                    od = pc.draw                                   # patched on the CLASS: instance attributes would be pickled
+
+                    def draw(self_, old, _od=od):
+                        pt = _od(self_, old)
+                        handed["n"] += 1
+                        with np.errstate(all="ignore"):
+                            if not (float(fresh.log_likelihood(pt)) == float(pt["logL"])):
+                                handed["bad"] += 1
+                        return pt
+                    patches.append(mock.patch.object(pc, "draw", draw))
+                for pp in patches:
+                    pp.start()
+                try:
+                    f3.ns.nested_sampling_loop()
+                finally:
+                    for pp in patches:
+                        pp.stop()
+                if handed["bad"]:
+                    ctx.oracle_fail(f"{cls.__name__}.populate:interrupt-during-likelihood-evaluation:pool-logL",
+                                    f"{phase} phase, signal while the pool's likelihoods were evaluated, checkpoint, resume: {handed['bad']} of "
+                                    f"{handed['n']} points handed out by the restored pool carry a log-likelihood that is not the model's", case)
+                case = {**case, "points_handed_out_after_resume": handed["n"]}
+                st = real_state(f3.ns)
+                ok = consistent({**st, "live": [(k, i) for k, i in st["live"]]}, nlive)
+                pts = np.concatenate([np.asarray(f3.ns.nested_samples), np.asarray(f3.ns.live_points)]) \
+                    if f3.ns.live_points is not None else np.asarray(f3.ns.nested_samples)
+                with np.errstate(all="ignore"):
+                    bad = int(np.count_nonzero(~(fresh.log_likelihood(pts) == pts["logL"])))
+                if not ok:
+                    # the pool is populated from inside consume_sample, after state.increment and before the insertion index is
+                    # appended: the counts are those of the known window (F4)
+                    ctx.oracle_fail(KEY_F4, f"{phase} phase, signal while the pool's likelihoods were evaluated, checkpoint, resume, "
+                                    "40 iterations: " + "; ".join(reasons(st, nlive)), case)
+                if bad:
+                    ctx.oracle_fail(f"{cls.__name__}.populate:interrupt-during-likelihood-evaluation:stored-logL",
+                                    f"{phase} phase, signal while the pool's likelihoods were evaluated, checkpoint, resume, 40 iterations: "
+                                    f"{bad} recorded/live points whose stored logL is not the model's", case)
+                ctx.case(("pool-interrupt", phase), True, case, kind=f"pool-interrupt:{phase}:{'ok' if ok and not bad else 'inconsistent'}")
+            except Exception as e:  # noqa
+                ctx.oracle_fail(f"{cls.__name__}.populate:interrupt-during-likelihood-evaluation:resume-raised",
+                                f"{phase} phase: the checkpoint written by the handler cannot be resumed/continued: {type(e).__name__}: {e}", case)
+            finally:
+                shutil.rmtree(d, ignore_errors=True)
+    finally:
+        logging.disable(logging.NOTSET)
 
 
 def exit_code_test(ctx):
